@@ -354,7 +354,7 @@ class ClassLookup(Harness):
     title = "find_class resolves every public pams class name to exactly that class"
     what_symbolic = "nothing: enumeration of the finite set of public class names"
     nontrivial_event = "a name resolved"
-    bounds = {"quick": "all public classes of pams, pams.agents, pams.events, pams.logs, pams.utils; a registered user class; an unknown name; a user class shadowing a built-in name",
+    bounds = {"quick": "all public classes of pams, pams.agents, pams.events, pams.logs, pams.utils; a registered user class; an unknown name; a user class shadowing a built-in name; two registered user classes carrying one name",
               "thorough": "same"}
     reach = ("nontrivial",)
     agreement_runs = 0
@@ -390,6 +390,34 @@ class ClassLookup(Harness):
             g.require(False, "C18.ambiguous-class-resolved")
         except AttributeError:
             pass
+        # the same through the runner's registration: two different user classes that carry one name (made by a
+        # factory) cannot both be meant by a configuration entry -- the name must not resolve silently to one of them
+        from pams.runners import SequentialRunner
+
+        def make(side):
+            class SideTrader(pams.agents.Agent):
+                is_buyer = side
+
+                def submit_orders(self, markets):
+                    return []
+            return SideTrader
+        buy, sell = make(True), make(False)
+        runner = SequentialRunner(settings={"simulation": {"markets": [], "agents": [], "sessions": []}},
+                                  prng=random.Random(1))
+        runner.class_register(buy)
+        try:
+            runner.class_register(sell)
+        except Exception:        # refusing the second registration is one admissible answer
+            g.note("same-name-registration-refused")
+            return
+        g.require(sum(1 for c in runner.registered_classes if c is buy) == 1 and
+                  sum(1 for c in runner.registered_classes if c is sell) == 1, "C18.registered-class-lost",
+                  "a registered user class is no longer among the runner's classes")
+        try:
+            got = find_class("SideTrader", optional_class_list=runner.registered_classes)
+            g.require(False, "C18.ambiguous-class-resolved", f"two registered classes named SideTrader; resolved to {got}")
+        except AttributeError:
+            g.note("same-name-classes-ambiguous")
 
 
 class C18_JsonExtends(JsonExtends):
